@@ -39,3 +39,12 @@ func (m *Router) VerifRoutes() []VerifRoute {
 
 	return out
 }
+
+// VerifID identifies a route returned by FindRoute.
+func (r *Route) VerifID() [2]string {
+	if r == nil {
+		return [2]string{"", ""}
+	}
+
+	return [2]string{r.endpoint, r.method}
+}
